@@ -23,7 +23,7 @@ REAL_VS_STUB = {"real": ["gen_params end to end incl. load_ff_library, parsers, 
                 "stub": ["tqdm disabled", "sys.argv pinned", "os.listdir of the library directory answered by the harness",
                          "polyply DATA_PATH redirected to a scratch directory for generated libraries"]}
 PROBES = ["dim_hash", "dim_repeat", "dim_fileorder", "dim_listdir", "dim_relabel", "dim_history", "lib_family",
-          "history_with_failed_call"]
+          "history_with_failed_call", "protein_family_with_terminal_modifications"]
 
 
 def n_runs(tier):
@@ -41,6 +41,24 @@ def gen_job(verif_seed, tier, index):
     st = Streams(seed)
     g, e = st.gen, st.env
     members = []
+    if g.random() < 0.08:
+        # protein over the shipped martini3 library with a json residue graph: terminal modifications are applied
+        rg = histgen.protein_graph(g)
+        n = len(rg["resnames"])
+        base = histgen.protein_op(g, rg)
+        members.append({"dim": "base", "hashseed": 0, "ops": [base], "observe": 0})
+        members.append({"dim": "hash", "hashseed": e.choice(histgen.PALETTE[1:]), "ops": [base], "observe": 0})
+        members.append({"dim": "repeat", "hashseed": e.choice(histgen.PALETTE), "ops": [base, base], "observe": 1})
+        for _ in range(2):
+            op = histgen.protein_op(g, rg, keys=e.sample(range(0, 10 ** 6), n), node_order=_perm(e, n),
+                                    edge_order=_perm(e, n - 1), flip=[i for i in range(n - 1) if e.random() < 0.5])
+            members.append({"dim": "relabel", "hashseed": e.choice(histgen.PALETTE), "ops": [op], "observe": 0})
+        op = dict(base)
+        op["graph"] = {"kind": "seq", "seq": ffgen.seq_list(rg)}
+        members.append({"dim": "relabel", "hashseed": e.choice(histgen.PALETTE), "ops": [op], "observe": 0})
+        hist = _history(g, None, None)
+        members.append({"dim": "history", "hashseed": e.choice(histgen.PALETTE), "ops": hist + [base], "observe": len(hist)})
+        return {"index": index, "run_seed": seed, "members": members, "lib": True, "protein": True}
     if g.random() < 0.2:
         # a quarter of the library families have a base job that must be refused (block of another library):
         # then every member has to be refused as well, whatever ran before in the process
@@ -187,6 +205,8 @@ def run_job(job):
                               "msg": "two consecutive identical runs in one process wrote different files (below the header)"})
     if job.get("lib"):
         probes["lib_family"] = 1
+    if job.get("protein"):
+        probes["protein_family_with_terminal_modifications"] = 1
     digest = h.hexdigest()[:24]
     inter_res = base["status"] == "ok" and any(base["sections"].get(s) for s in ("bonds", "constraints")) and \
         len({a.split()[2] for a in base["atoms"]}) >= 2
